@@ -20,5 +20,68 @@ TEXTS = {
  },
 }
 
+TEXTS.update({
+ 'C02': {
+  'level': "Trace validation of comparisons recorded in BOTH operand orders: for every ordered unit pair of every type with a reference unit, amount pairs built to be equal in exact arithmetic, their floating-point / 1e-18 neighbours, clearly separated pairs, mixed signs, zeros (plus NaN/inf for the consistency clauses) are compared with ==, !=, <, <=, >, >=, partial_cmp as (a,b) and (b,a); TLC decides the exact order of the magnitudes with big-number arithmetic and checks (i) agreement with it beyond one conversion's rounding error, (ii) same-unit = amount type's own comparison, (iii) the symmetry laws with no tolerance at all, (iv) internal consistency. Exhaustive over unit pairs, sampled over amounts.",
+  'note': TB + "CmpSeparated in spec/Quantities.tla defines 'more than the rounding error of one conversion'.",
+  'technique': "TLA+ trace validation of both-order comparison events; symmetry clauses exact, order clause against exact magnitudes",
+ },
+ 'C03': {
+  'level': "Trace validation: a+b, a-b, a/b for every ordered unit pair of every type with a reference unit; TLC checks result unit = left operand's unit, magnitude = exact sum/difference/ratio within the additive tolerance model (cancellation does not shrink the tolerance), and bit-identity with the amount type's own operator when units are equal. Exhaustive over unit pairs, sampled over amounts.",
+  'note': TB + "tolerance model of DESIGN.md appendix A as written in AddWithin / RatioWithin.",
+  'technique': "TLA+ trace validation of +,-,/ events against exact-rational relations",
+ },
+ 'C04': {
+  'level': "Trace validation of every derived operator instance that the declared derivations generate (catalogue 34, astronomical 4, fixtures, model registry) over all operand unit pairs: TLC checks that amount x unit-scale of the result equals the exact product / quotient of the operands' reference-unit magnitudes within tolerance, and that the owned, &a, &b, &a&b forms return identical values. Operator existence and result type are C06's business.",
+  'note': TB + "DerivedTol in spec/Quantities.tla; the instance list is generated from spec/catalogue.json + spec/models/*.json.",
+  'technique': "TLA+ trace validation of derived mul/div events (all borrow forms) against exact magnitudes",
+ },
+ 'C05': {
+  'level': "Trace validation of the unit choice: operands are chosen so that the exact result magnitude lands on, one representable step below and above every unit scale of the result type (plus zero / negative results) and _fit is also called directly on those magnitudes; TLC computes Natural(k) from the amount-type product/quotient of the two scales and BestFit over the eligible (SI-prefixed when the reference unit is) units - as a band when the magnitude is only known up to rounding, sharply when it is exact - and checks unit membership, reference-in => reference-out, and amount = amount type's own product/quotient in the natural-unit case.",
+  'note': TB + "BestFitBand / Eligible / Natural in spec/Quantities.tla are the property-level definition, independent of the filter/first/last algorithm in the code.",
+  'technique': "TLA+ trace validation of result-unit selection against a declarative best-fit set; boundary magnitudes by construction",
+ },
+ 'C08': {
+  'level': "Trace validation, exhaustive over types x units: new / amount*unit / unit*amount store exactly the given amount (bit-identical, NaN/inf/-0 included) and unit; k*q, q*k, q/k keep the unit and equal the amount type's own product/quotient bit for bit; the amount type itself has one unit with empty symbol and scale one.",
+  'note': TB + "the amount type's own * and / define the reference values (logged as 'ref').",
+  'technique': "TLA+ trace validation of constructor / scalar events, bit-identity clauses",
+ },
+ 'C10': {
+  'level': "Trace validation over all ordered unit pairs of every type without reference unit (Temperature, fixtures, model types) and single-unit types: == iff same unit and equal amounts, different units unordered (all four relational operators false, partial_cmp None), + - / across units panic (recorded through catch_unwind), same-unit results bit-identical to the amount type's.",
+  'note': TB + "panics are observed at the harness boundary.",
+  'technique': "TLA+ trace validation of comparison/arithmetic events on no-reference-unit types incl. panic outcomes",
+ },
+ 'C13': {
+  'level': "Trace validation of Rate: components, reciprocal (and reciprocal twice), rate*q, q*rate, q/rate over all term/per/operand units for ordered type pairs from a representative set; TLC checks result unit, value = ta*(q in per unit)/pm resp. pm*(q in term unit)/ta within tolerance, the same through the reciprocal, and there-and-back; mixed units of a no-reference type must panic.",
+  'note': TB + "RateMulWithin / BackWithin in spec/Rates.tla.",
+  'technique': "TLA+ trace validation of rate events against exact relations",
+ },
+ 'C14': {
+  'level': "Trace validation: ConversionTable with N in 0..8 seeded random rows (duplicates, missing pairs): same unit => unchanged, else first matching row => amount bit-identical to amount*factor+offset computed by the amount type, else None; the predefined temperature table covers all 6 ordered pairs and matches the exact physical formulas (held as rationals in the specification) within tolerance, which implies mutual inverseness and consistent composition up to rounding.",
+  'note': TB + "TempPhys in spec/Rates.tla (0 degC = 273.15 K, degF = degC*9/5+32).",
+  'technique': "TLA+ trace validation of table conversions: first-row semantics + exact physical temperature formulas",
+ },
+ 'C15': {
+  'level': "Trace validation on code-point sequences: TLC strips the padding, parses sign/digits/fraction/space/symbol, and checks layout, single sign, width counted in characters, alignment, symbol resolving to the stored unit, text reading back to exactly the stored amount (Decimal: equal; f64: inside the rounding interval given by the logged neighbour doubles), exactly p fractional digits correctly rounded, unit display = str formatting of the symbol, unit-less values = the amount type's own formatting, rate display. Every (plus, align, fill) shape incl. a non-ASCII fill is covered with rotating widths/precisions; amounts and remaining choices are sampled.",
+  'note': TB + "Rust's Display of the amount type and of str are the reference for unit-less values and units. The 0 and # flags are not claimed.",
+  'technique': "TLA+ trace validation of formatted text (code points) against a layout/parse specification",
+ },
+ 'C16': {
+  'level': "Exhaustive over the finite parts: all 25 prefixes (name, abbreviation, exponent against the SI brochure table in spec/SI.tla), from_exp for all 256 i8 values, from_abbr for all strings of length <= 2 over the abbreviation alphabet plus foreign characters, iteration order; plus seeded random strings.",
+  'note': TB + "spec/SI.tla written from the SI brochure (9th ed. + 2022 prefixes).",
+  'technique': "TLA+ trace validation against an independent SI table; exhaustive",
+ },
+ 'C17': {
+  'level': "Trace validation of serde round trips for every unit of every catalogue type in both back-ends, through serde_json::Value and through JSON text parsed with float_roundtrip: unit serialises as its variant name, amount as a number (f64) / decimal string (Decimal) denoting exactly the stored value, and deserialisation returns the identical unit and bit-identical amount; injectivity follows from the round trip. Encode/decode fidelity is not the home ground of the technique: the specification contributes the representation contract and the oracle.",
+  'note': TB + "serde_json with float_roundtrip as the exactly rounding parser.",
+  'technique': "TLA+ trace validation of serialisation round-trip events",
+ },
+ 'C18': {
+  'level': "Trace validation of totality: a special-value sweep (f64: +-0, subnormals, +-MAX, +-inf, NaN in all combinations; Decimal: amounts at and beyond the edges of the stated range) through convert, compare, + - /, scalar, derived, fit, rate and format operations; the Decimal in-range predicate of the property is evaluated exactly by TLC per event, events outside it are out of claim, a panic inside it (or any panic in f64) is a violation. The C18.total clauses are also evaluated on the traces of the other arithmetic properties.",
+  'note': TB + "ConvInRange / ArithInRange / DerivedInRange / RateInRange in the specification are the reading of 'every magnitude that naturally arises'.",
+  'technique': "TLA+ trace validation of panic outcomes against an exact in-range predicate; special-value sweep",
+ },
+})
+
 NOT_APPLICABLE = {
 }
